@@ -60,6 +60,10 @@ def app(op, *args):
     if op in ("==", "!=", "is") and len(args) == 2 and isinstance(args[0], tuple) and len(args[0]) == 2 and args[0][0] == "k" \
             and not (isinstance(args[1], tuple) and len(args[1]) == 2 and args[1][0] == "k"):
         args = (args[1], args[0])
+    # membership in a mapping is membership in its keys: `k in d.keys()` is `k in d`
+    if op in ("in", "notin") and len(args) == 2 and isinstance(args[1], tuple) and len(args[1]) == 5 and args[1][0] == "mcall" \
+            and args[1][2] == "keys" and not args[1][3] and not args[1][4]:
+        args = (args[0], args[1][1])
     if op == "isnot" and len(args) == 2:
         return app("not", ("app", "is") + tuple(args))
     if op == "notin" and len(args) == 2:
